@@ -17,7 +17,7 @@ def one (sid):
   tmp = tempfile.mkdtemp(prefix='seedrun-', dir='/dev/shm')
   try:
     for sub in ('pox', 'ext'):
-      shutil.copytree(os.path.join('/repo', sub), os.path.join(tmp, sub), ignore=shutil.ignore_patterns('__pycache__'))
+      shutil.copytree(os.path.join(os.environ.get('REPO_ROOT', '/repo'), sub), os.path.join(tmp, sub), ignore=shutil.ignore_patterns('__pycache__'))
     r = subprocess.run(['git', 'apply', '--directory=' + tmp.lstrip('/'), '--unsafe-paths', os.path.join(d, 'patch.diff')], cwd='/', capture_output=True, text=True)
     if r.returncode != 0:
       r = subprocess.run(['patch', '-p1', '-s', '-d', tmp, '-i', os.path.join(d, 'patch.diff')], capture_output=True, text=True)
